@@ -2,9 +2,9 @@ package checks
 
 import (
 	"encoding/binary"
-	"math/bits"
 	"encoding/json"
 	"fmt"
+	"math/bits"
 	"strings"
 
 	"github.com/ipfs/go-cid"
